@@ -77,7 +77,9 @@ PROPS = {
     },
     "C06": {
         "groups": [{"name": "C06", "quick": 1500, "thorough": 40000, "workers": 12}, {"name": "renderdeep", "quick": 192, "thorough": 8000, "workers": 12},
-                   {"name": "render", "quick": 800, "thorough": 20000}, {"name": "presentP", "quick": 800, "thorough": 20000, "workers": 12}],
+                   {"name": "render", "quick": 800, "thorough": 20000}, {"name": "presentP", "quick": 800, "thorough": 20000, "workers": 12},
+                   # asking for an item's children in several steps (continuations, offsets into a page): every step returns
+                   {"name": "C10P", "quick": 800, "thorough": 20000, "workers": 8}],
         "rule": "JSON objects with the ActivityStreams keys filled with right- and wrong-typed values (types from all kinds incl. Tombstone/bogus, markup bodies in the four media types incl. 10..70 nested blockquotes, huge/negative/fractional numbers, malformed URLs and timestamps, embedded parents up to depth 3, collections with bogus entries, dead references to a closed port), built as post/actor/activity/any and then every Tangible method called at widths -50..300 and link numbers 0, +-1, 2^31, +-2^63; deep nesting of every block/inline tag to depth 5..65 at widths -1..80; "
                 "one renderdeep case in three is wide rather than deep (predicate-only): single lines of 10^4..10^5 characters in all four markups (styled stretches up to 14 000 characters), 60..3000 siblings (paragraphs, line breaks, list items, bold words, links, images, rules, headings, table cells, gemtext and plain-text lines), attribute values of 5 000..50 000 characters (href, src, alt, title, unknown attributes, 300 attributes on one element), "
                 "ordinary documents at widths 300..4096, 65535, 2^31-1, 2^31, 2^32+7, 2^62, 2^63-1, -80, -65535, -2^31, -2^63+70000 (documents with <pre> or <hr>, whose output is as wide as the width: 300..2000), inline nesting of 50..500 levels around a few characters, <pre> / fenced blocks of 10..100 short lines with lines x width <= 8000; "
